@@ -14,7 +14,7 @@ from pyvc.contracts import Any, Bool, Const, ExtSpec, ExtT, Int, ListOfT, LoopSp
 from pyvc.values import BoundMethod, HObj, Opaque, Opt, PartialV, Ref, U, to_int_term
 
 from .a_common import F
-from .a_tasks import T, TASK, TC, calls, exts, flat, index_of, only_propagates
+from .a_tasks import T, TASK, TC, calls, exts, flat, index_of, only_propagates, trivial_loop
 
 B = z3.BoolVal
 UT = 's3transfer.utils'
@@ -460,3 +460,30 @@ def register(R):
     cw.props, cw.checks, cw.raises = ('C04', 'C05', 'C03', 'C08'), wfa_checks, {}
     cw.loops = {0: LoopSpec(invariant=lambda l: {}, iteration_checks=wfa_iteration,
                             local_types={'submitted_futures': ExtT('future_set'), 'possibly_more_submitted_futures': ExtT('future_set')})}
+
+    # ------------------------------------------------------------------ NonThreadedExecutor.submit (use_threads=False)
+    # runs the task synchronously; the returned future is done and carries the task's result or its Exception (C03: never a
+    # success for a failed call); a KeyboardInterrupt is not captured
+    NTE, NTF = f'{F}:NonThreadedExecutor', f'{F}:NonThreadedExecutorFuture'
+    R.add_fields(NTF, _result=Any, _exception=Any, _traceback=Any, _done=Bool, _done_callbacks=Any)
+    R.mark_inline(f'{NTF}.__init__', f'{NTF}.set_result', f'{NTF}.set_exception_info', f'{NTF}._invoke_done_callback')
+    R.contract(f'{NTF}._set_done', params={}, inline=True, loops={0: trivial_loop()})
+    R.external('task_callable', **{'()': ExtSpec(returns=ExtT('main_result'), raises=('Exception', 'KeyboardInterrupt'))})
+
+    def nte_checks(c):
+        runs = [e for e in c.trace if e.kind == 'ext' and e.name == 'task_callable.()']
+        fut = c.result
+        okf = isinstance(fut, Ref) and c.new.obj(fut).cls.name == 'NonThreadedExecutorFuture'
+        out = {'the_task_runs_exactly_once_and_a_future_comes_back': (B(len(runs) == 1 and bool(okf)), ['C03', 'C04'])}
+        if len(runs) == 1 and okf:
+            h = c.new.obj(fut)
+            raised = runs[0].extra.get('raised')
+            out['the_future_is_done_and_carries_the_tasks_outcome'] = (B(bool(
+                h.fields.get('_done') is True and (
+                    (raised is None and h.fields.get('_exception') is None and h.fields.get('_result') is runs[0].result)
+                    or (raised is not None and h.fields.get('_exception') is raised)))), ['C03', 'C04'])
+            out['an_interrupt_is_not_captured_into_the_future'] = (B(raised is None or raised.cls != 'KeyboardInterrupt'), ['C07', 'C03'])
+        return out
+
+    R.contract(f'{NTE}.submit', props=['C03', 'C04', 'C07'], params=dict(fn=ExtT('task_callable')), top_level=True,
+               checks=nte_checks, raises={'KeyboardInterrupt': only_propagates})
